@@ -164,6 +164,9 @@ def collect(prop, tier, fnd, cov, ck):
         else:
             seg = ck.stage_segments(tier, dump["forget"]["file"], "segments-forget", universe="4")
             segments_into(prop, seg, fnd, cov, ck, "forget")
+            if tier != "quick":
+                ck.asan_into(prop, ck.stage_asan(tier, dump["script"], segfiles=(dump["forget"]["file"],),
+                                                 name="asan-forget"), fnd, cov, "forget segments")
             plan = forget_plan(tier, int(os.environ.get("VERIF_SEED", "0")))
             drv = ck.stage_drive(tier, name="drive-forget", plan=plan)
             ck.collect_drive(prop, drv, fnd, cov, crash_owner="C17")
@@ -191,6 +194,9 @@ def collect(prop, tier, fnd, cov, ck):
         seg = ck.stage_segments(tier, dump["crash"]["file"], "segments-crash", universe="3")
         segments_into(prop, seg, fnd, cov, ck, "crash")
         clone_crash_into(prop, tier, fnd, cov, ck)
+        if tier != "quick":
+            ck.asan_into(prop, ck.stage_asan(tier, dump["script"], segfiles=(dump["crash"]["file"],),
+                                             name="asan-crash"), fnd, cov, "crash segments")
         plan = crash_plan(tier, int(os.environ.get("VERIF_SEED", "0")))
         drv = ck.stage_drive(tier, name="drive-crash", plan=plan)
         ck.collect_drive(prop, drv, fnd, cov, crash_owner="C16")
